@@ -72,7 +72,7 @@ fn family<T: UniMerge + UniIngest>(checks: &mut Vec<Box<dyn Check>>, tier: Tier)
     }
     // large n through self-merges: n = |w|·2^k and cross merges of two such chains
     for a in ["small", "off9", "tail"] {
-        checks.push(super::longrun::doubling::<T>("C02", a, 3, 2, if q { 24 } else { 40 }, filter, T::ORDER >= 4));
+        checks.push(super::longrun::doubling::<T>("C02", a, 3, 2, if q { 34 } else { 40 }, filter, T::ORDER >= 4));
     }
 }
 
